@@ -43,22 +43,35 @@ def localSpanViol (len : Nat) (n : Node) : List Viol :=
   let kids := n.children
   (if p.1 < p.2 then [] else [s!"empty-span:{k}"]) ++
   (if p.2 ≤ len then [] else [s!"span-out-of-range:{k}"]) ++
+  -- a child with an empty span (reported on its own) drags ordering clauses along: mark them
+  let ec := if kids.any (fun c => c.pos.2 ≤ c.pos.1) then "+emptychild" else ""
   (kids.filterMap fun c =>
     if isHeredoc c then none                      -- the here-document body may follow the line
     else if spanIn c.pos p then none
-    else some s!"child-outside-parent:{c.kind}{if isRedirectWithHeredoc c then "+heredoc" else ""}:{k}") ++
-  (if ordered kids then [] else [s!"children-unordered:{k}"]) ++
+    else some s!"child-outside-parent:{c.kind}{if isRedirectWithHeredoc c then "+heredoc" else ""}:{k}{if c.pos.2 ≤ c.pos.1 then "+emptychild" else ""}") ++
+  (if ordered kids then [] else [s!"children-unordered:{k}{ec}"]) ++
   (if spansItsParts n then
     match kids.head?, kids.getLast? with
     | some a, some b =>
       if p == (a.pos.1, b.pos.2) then []
-      else [s!"span-not-first-to-last:{k}:{b.kind}{if isRedirectWithHeredoc b then "+heredoc" else ""}"]
+      else [s!"span-not-first-to-last:{k}:{b.kind}{if isRedirectWithHeredoc b then "+heredoc" else ""}{ec}"]
     | _, _ => [s!"no-children:{k}"]
    else [])
 
 /-- C03 on one tree -/
-def spansWF (len : Nat) (n : Node) : List Viol :=
-  (n.preorder.map (localSpanViol len)).flatten
+def containsD19 (n : Node) : Bool :=
+  n.preorder.any fun m => match m with
+    | .pipeline _ (.reservedword (0, 0) _ :: _) => true
+    | _ => false
+
+/-- C03 on one tree.  A pipeline whose first part is a reserved word at span (0,0) is reported
+    on its own (`empty-span`); the clauses of its ancestors that it drags along are marked
+    `+emptydesc`. -/
+def spansWF (len : Nat) (n : Node) (dbg : Bool := false) : List Viol :=
+  (n.preorder.map fun m =>
+    (localSpanViol len m).map fun v =>
+      v ++ (if containsD19 m && !(v.startsWith "empty-span") then "+emptydesc" else "") ++
+        (if dbg then s!"@{m.pos.1}-{m.pos.2}" else "")).flatten
 
 /-! ## C12 -/
 
@@ -145,7 +158,8 @@ def localSchemaViol (n : Node) : List Viol :=
   | .unimplemented _ ps => bad (!ps.isEmpty) "unimplemented-empty"
 
 /-- C12 on one (already well-typed) tree -/
-def schemaOK (n : Node) : List Viol := (n.preorder.map localSchemaViol).flatten
+def schemaOK (n : Node) (dbg : Bool := false) : List Viol :=
+  (n.preorder.map fun m => (localSchemaViol m).map (· ++ (if dbg then s!"@{m.pos.1}-{m.pos.2}" else ""))).flatten
 
 /-! ## C04 / C05: text under spans -/
 
@@ -184,6 +198,7 @@ def wordScan : Nat → Nat → List Nat → Str → Bool
       else wordScan fuel 4 stack rest
     | _ =>
       if c == '\\' then wordScan fuel 0 stack (rest.drop 1)
+      else if c == '$' && rest.head? == some '$' then wordScan fuel 0 stack (rest.drop 1)
       else if c == '$' && rest.head? == some '\'' then wordScan fuel 5 (0 :: stack) (rest.drop 1)
       else if c == '\'' then wordScan fuel 1 (0 :: stack) rest
       else if c == '"' then wordScan fuel 2 (0 :: stack) rest
@@ -226,7 +241,11 @@ def localTextViol (s : Str) (n : Node) : List Viol :=
   let tc := stripContinuations t
   let bad (ok : Bool) (sig : String) : List Viol := if ok then [] else [sig]
   match n with
-  | .operator _ op => bad (tc == op) "operator-text"
+  | .operator _ op =>
+    if tc == op then []
+    else if op == ['\n'] && tc.head? == some '\n' then ["newline-operator-extended-over-heredoc"]
+    else if tc == op ++ ['\\'] && n.pos.2 == s.length then ["operator-span-includes-final-backslash"]
+    else ["operator-text"]
   | .reservedword _ w => bad (tc == w) "reservedword-text"
   | .pipe _ w => bad (tc == w) "pipe-text"
   | .word _ _ ps | .assignment _ _ ps =>
@@ -234,8 +253,11 @@ def localTextViol (s : Str) (n : Node) : List Viol :=
     -- a substitution bashlex did not record as a part cannot be stepped over here (that it is
     -- missing is C07's business)
     let unrec := hasSubstOpener masked
-    bad (isWholeWord masked) (if unrec then "word-not-whole+unrecsub" else "word-not-whole") ++
-    bad (match s[n.pos.2]? with | some c => isBreakChar c | none => true) "word-cut-short" ++
+    -- a redirection operator glued to the word and followed by a line continuation: the
+    -- tokenizer's double unget lands inside the continuation and the word keeps `<\`
+    let rc := if endsWith t ['<', '\\'] || endsWith t ['>', '\\'] then "+redircont" else ""
+    bad (isWholeWord masked) ((if unrec then "word-not-whole+unrecsub" else "word-not-whole") ++ rc) ++
+    bad (match s[n.pos.2]? with | some c => isBreakChar c | none => true) ("word-cut-short" ++ rc) ++
     bad (n.pos.1 == 0 || (match s[n.pos.1 - 1]? with
         | some c => isBreakChar c ||
             -- a word may follow the '-' of `<<-`, `<&-`, `>&-` directly
@@ -265,6 +287,9 @@ def localTextViol (s : Str) (n : Node) : List Viol :=
     bad (match o with | some w => n.pos.1 < w.pos.1 | none => true) "redirect-target-before-operator"
   | _ => []
 
+/-- debugging aid: the span of the offending node (never part of a signature in a check run) -/
+def tag (dbg : Bool) (n : Node) : String := if dbg then s!"@{n.pos.1}-{n.pos.2}" else ""
+
 def addCtx (ctx flag : String) : String :=
   if (ctx.splitOn flag).length > 1 then ctx else ctx ++ flag
 
@@ -275,40 +300,42 @@ mutual
               token value, from which continuations were removed);
     `+mlsub`  inside a substitution whose text holds a newline (only its first line is parsed).
     Inside a backquote substitution the two backquotes delimit words like blanks do. -/
-def textOKN (s : Str) (ctx : String) : Node → List Viol
+def textOKN (dbg : Bool) (s : Str) (ctx : String) : Node → List Viol
   | n@(.word p _ ps) | n@(.assignment p _ ps) =>
     let ctx' := if hasContinuation (Str.slice s p.1 p.2) then addCtx ctx "+cont" else ctx
-    let sub := textOKL s ctx' ps
+    -- a raw newline inside the word: only the first line of a substitution body is parsed
+    let ctxp := if (stripContinuations (Str.slice s p.1 p.2)).contains '\n' then addCtx ctx' "+nlword" else ctx'
+    let sub := textOKL dbg s ctxp ps
     -- a word whose recorded substitution parts are themselves mis-placed cannot be delimited
     let ctxw := if (ps.filter isSubst).any (fun q => !(localTextViol s q).isEmpty) then
       addCtx ctx' "+badsub" else ctx'
-    (localTextViol s n).map (· ++ ctxw) ++ sub
+    (localTextViol s n).map (· ++ ctxw ++ tag dbg n) ++ sub
   | n@(.commandsubstitution p c) =>
     let t := Str.slice s p.1 p.2
     let ctx' := if (stripContinuations t).contains '\n' then addCtx ctx "+mlsub" else ctx
     let s' := if startsWith t ['`'] then blankAt (blankAt s p.1) (p.2 - 1) else s
-    (localTextViol s n).map (· ++ ctx') ++ textOKN s' ctx' c
+    (localTextViol s n).map (· ++ ctx' ++ tag dbg n) ++ textOKN dbg s' ctx' c
   | n@(.processsubstitution p c) =>
     let t := Str.slice s p.1 p.2
     let ctx' := if (stripContinuations t).contains '\n' then addCtx ctx "+mlsub" else ctx
-    (localTextViol s n).map (· ++ ctx') ++ textOKN s ctx' c
+    (localTextViol s n).map (· ++ ctx' ++ tag dbg n) ++ textOKN dbg s ctx' c
   | n@(.list _ ps) | n@(.pipeline _ ps) | n@(.ifN _ ps) | n@(.forN _ ps) | n@(.whileN _ ps)
   | n@(.untilN _ ps) | n@(.caseN _ ps) | n@(.pattern _ ps) | n@(.command _ ps)
   | n@(.unimplemented _ ps) | n@(.function _ _ _ ps) =>
-    (localTextViol s n).map (· ++ ctx) ++ textOKL s ctx ps
-  | n@(.compound _ l r) => (localTextViol s n).map (· ++ ctx) ++ textOKL s ctx l ++ textOKL s ctx r
+    (localTextViol s n).map (· ++ ctx ++ tag dbg n) ++ textOKL dbg s ctx ps
+  | n@(.compound _ l r) => (localTextViol s n).map (· ++ ctx ++ tag dbg n) ++ textOKL dbg s ctx l ++ textOKL dbg s ctx r
   | n@(.redirect _ _ _ o _ h _) =>
-    (localTextViol s n).map (· ++ ctx) ++
-    (match o with | some w => textOKN s ctx w | none => []) ++
-    (match h with | some b => textOKN s ctx b | none => [])
-  | n => (localTextViol s n).map (· ++ ctx)
-def textOKL (s : Str) (ctx : String) : List Node → List Viol
+    (localTextViol s n).map (· ++ ctx ++ tag dbg n) ++
+    (match o with | some w => textOKN dbg s ctx w | none => []) ++
+    (match h with | some b => textOKN dbg s ctx b | none => [])
+  | n => (localTextViol s n).map (· ++ ctx ++ tag dbg n)
+def textOKL (dbg : Bool) (s : Str) (ctx : String) : List Node → List Viol
   | [] => []
-  | n :: ns => textOKN s ctx n ++ textOKL s ctx ns
+  | n :: ns => textOKN dbg s ctx n ++ textOKL dbg s ctx ns
 end
 
 /-- C04 on one tree -/
-def textOK (s : Str) (n : Node) : List Viol := textOKN s "" n
+def textOK (s : Str) (n : Node) (dbg : Bool := false) : List Viol := textOKN dbg s "" n
 
 mutual
 /-- leaves for C05: operators, reserved words, pipes, whole words, redirects (fd + operator +
@@ -338,6 +365,7 @@ def isLayout : Nat → Str → Bool
   | fuel + 1, c :: rest =>
     if c == ' ' || c == '\t' || c == '\n' then isLayout fuel rest
     else if c == '\\' && rest.head? == some '\n' then isLayout fuel (rest.drop 1)
+    else if c == '\\' && rest.isEmpty then true    -- continuation against the implicit final newline
     else if c == '#' then isLayout fuel (rest.dropWhile (· != '\n'))
     else false
 
